@@ -19,7 +19,7 @@
 #include "mc.h"
 #include "rfc_framing.h"
 
-#define MAXP 900
+#define MAXP 1100
 enum { PK_NONE=0, PK_EMPTY, PK_ZEROS255, PK_EXT0, PK_EXTALL, PK_BAD, PK_ZEROSN, PK_NKIND };
 static const char *const PKNAME[PK_NKIND]={"nopad","pad0","pad255z","ext0","extall","badext","padNz"};
 typedef struct { int frame,id,len; unsigned char d[4]; } xdecl;        /* one declared extension */
@@ -79,42 +79,52 @@ static apkt *add_pkt(int toc,int code,int vbr,int M,const int *sz,int padkind,in
    return p;
 }
 
-/* the C07 packet group for one TOC configuration (DESIGN section 4 C07, alphabet P7) */
-static void build_group(int toc,int cfg,int reduced){
+/* the C07 packet group for one TOC configuration (DESIGN section 4 C07, alphabet P7).
+   level 0: full group; 1: reduced; 2: tiny (for the deeper searches) */
+static void c3_sizes(int M,int vbr,int *sz){ int i;
+   if (M==1) sz[0]=5;
+   else if (M==2){ if(vbr){ sz[0]=252; sz[1]=1; } else sz[0]=sz[1]=4; }
+   else if (M==3){ if(vbr){ sz[0]=2; sz[1]=0; sz[2]=7; } else sz[0]=sz[1]=sz[2]=2; }
+   else for(i=0;i<M;i++) sz[i]=vbr?i%3:1;
+}
+static void build_group(int toc,int cfg,int level){
    static const int L0[5]={0,1,251,252,1275}, V2[3]={0,1,252};
-   int a,b,M,vbr,pk,sz[48],i; int dur=rfc_frame_48k(toc);
-   for(a=0;a<5;a++){ if(reduced&&(a==2)) continue; sz[0]=L0[a]; add_pkt(toc,0,0,1,sz,PK_NONE,0,cfg,""); }
+   int a,b,M,vbr,pk,sz[49],i,k; int dur=rfc_frame_48k(toc), Mmax=5760/dur; int reduced=level>=1, tiny=level>=2;
+   int Ms[6],nM=0; Ms[nM++]=1; Ms[nM++]=2; Ms[nM++]=3; if(Mmax>3) Ms[nM++]=Mmax;      /* Mmax frames = exactly 120 ms */
+   if(Mmax+1<=48&&Mmax+1>3) Ms[nM++]=Mmax+1;                                         /* one frame over 120 ms: invalid (R5) */
+   if(Mmax!=48&&Mmax+1!=48) Ms[nM++]=48;                                             /* 48 frames of a longer duration: invalid */
+   for(a=0;a<5;a++){ if(reduced&&(a==2)) continue; if(tiny&&a!=1) continue; sz[0]=L0[a]; add_pkt(toc,0,0,1,sz,PK_NONE,0,cfg,""); }
    sz[0]=sz[1]=3; add_pkt(toc,1,0,2,sz,PK_NONE,0,cfg,"");
    if(!reduced){ sz[0]=sz[1]=0; add_pkt(toc,1,0,2,sz,PK_NONE,0,cfg,".L0"); }
-   for(a=0;a<3;a++) for(b=0;b<3;b++){ if(reduced&&a!=b&&!(a==2||b==2)) continue; sz[0]=V2[a]; sz[1]=V2[b]; add_pkt(toc,2,0,2,sz,PK_NONE,0,cfg,""); }
-   for(M=1;M<=48;M=(M<3?M+1:(M==3?48:49))) for(vbr=0;vbr<2;vbr++) for(pk=0;pk<=PK_BAD;pk++){
-      int valid = M*dur<=5760;
-      if (!valid && pk!=PK_NONE) continue;                 /* one over-long representative per (M,vbr) is enough */
+   for(a=0;a<3;a++) for(b=0;b<3;b++){ if(reduced&&a!=b&&!(a==2||b==2)) continue; if(tiny&&!(a==1&&b==2)) continue; sz[0]=V2[a]; sz[1]=V2[b]; add_pkt(toc,2,0,2,sz,PK_NONE,0,cfg,""); }
+   for(k=0;k<nM;k++) for(vbr=0;vbr<2;vbr++) for(pk=0;pk<=PK_BAD;pk++){
+      int valid; M=Ms[k]; valid = M*dur<=5760;
+      if (!valid && (pk!=PK_NONE||(reduced&&vbr))) continue;  /* one over-long representative per (M,vbr) is enough */
       if (reduced && (pk==PK_EMPTY||pk==PK_ZEROS255) && !(M==2&&vbr)) continue;
-      if (reduced && M==48 && pk!=PK_NONE && pk!=PK_EXTALL) continue;
-      if (M==1) sz[0]=5;
-      else if (M==2){ if(vbr){ sz[0]=252; sz[1]=1; } else sz[0]=sz[1]=4; }
-      else if (M==3){ if(vbr){ sz[0]=2; sz[1]=0; sz[2]=7; } else sz[0]=sz[1]=sz[2]=2; }
-      else for(i=0;i<M;i++) sz[i]=vbr?i%3:1;
+      if (reduced && M>3 && pk!=PK_NONE && pk!=PK_EXTALL) continue;
+      if (tiny){ /* one packet per interesting kind */
+         int keep = (M==2&&!vbr&&pk==PK_NONE)||(M==3&&vbr&&pk==PK_ZEROS255)||(M==1&&!vbr&&pk==PK_EXT0)||(M==2&&vbr&&pk==PK_EXTALL)||(M==3&&!vbr&&pk==PK_EXTALL)||(M==1&&vbr&&pk==PK_BAD)||(M==2&&vbr&&pk==PK_EMPTY)||(M>3&&valid&&vbr&&pk==PK_EXTALL)||(!valid&&!vbr&&M==Mmax+1);
+         if(!keep) continue; }
+      c3_sizes(M,vbr,sz);
       add_pkt(toc,3,vbr,M,sz,pk,0,cfg,"");
    }
    /* largest frame in a code-3 packet, without and with an extension (F8 shape) */
-   sz[0]=1275; add_pkt(toc,3,0,1,sz,PK_NONE,0,cfg,".L1275"); add_pkt(toc,3,0,1,sz,PK_EXT0,0,cfg,".L1275");
+   sz[0]=1275; if(!tiny) add_pkt(toc,3,0,1,sz,PK_NONE,0,cfg,".L1275"); add_pkt(toc,3,0,1,sz,PK_EXT0,0,cfg,".L1275");
    /* invalid packets */
    { unsigned char r[1300]; int n;
      add_raw(r,0,cfg,"inv.len0");
-     r[0]=toc|3; add_raw(r,1,cfg,"inv.c3.nocount");
+     r[0]=toc|3; if(!tiny) add_raw(r,1,cfg,"inv.c3.nocount");
      r[0]=toc|3; r[1]=0; r[2]=1; add_raw(r,3,cfg,"inv.c3.M0");
-     r[0]=toc|1; r[1]=1; r[2]=2; r[3]=3; add_raw(r,4,cfg,"inv.c1.odd");
-     r[0]=toc|2; r[1]=5; r[2]=1; add_raw(r,3,cfg,"inv.c2.short");
-     r[0]=toc|3; r[1]=2; r[2]=1; r[3]=2; r[4]=3; add_raw(r,5,cfg,"inv.c3c.indivisible");
+     r[0]=toc|1; r[1]=1; r[2]=2; r[3]=3; if(!tiny) add_raw(r,4,cfg,"inv.c1.odd");
+     r[0]=toc|2; r[1]=5; r[2]=1; if(!tiny) add_raw(r,3,cfg,"inv.c2.short");
+     r[0]=toc|3; r[1]=2; r[2]=1; r[3]=2; r[4]=3; if(!tiny) add_raw(r,5,cfg,"inv.c3c.indivisible");
      r[0]=toc|3; r[1]=0x41; r[2]=9; r[3]=1; add_raw(r,4,cfg,"inv.c3.padoverrun");
      r[0]=toc|3; r[1]=0x83; r[2]=1; r[3]=9; r[4]=7; add_raw(r,5,cfg,"inv.c3v.lenoverrun");
      if(!reduced){ r[0]=toc|3; r[1]=49; for(i=0;i<49;i++) r[2+i]=(unsigned char)(i+1); add_raw(r,51,cfg,"inv.c3.M49");
        r[0]=toc; for(n=1;n<=1276;n++) r[n]=(unsigned char)n; add_raw(r,1277,cfg,"inv.c0.L1276"); }
    }
    /* TOC-incompatible packets: the group's TOC with exactly one configuration bit flipped */
-   for(i=2;i<8;i++){ apkt *p; char t[16]; if(reduced&&i!=2&&i!=3&&i!=7) continue; sz[0]=1; snprintf(t,sizeof t,".xbit%d",i); p=add_pkt(toc^(1<<i),0,0,1,sz,PK_NONE,0,cfg,t); p->foreign=1; }
+   for(i=2;i<8;i++){ apkt *p; char t[16]; if(reduced&&i!=2&&i!=3&&i!=7) continue; if(tiny&&i!=2) continue; sz[0]=1; snprintf(t,sizeof t,".xbit%d",i); p=add_pkt(toc^(1<<i),0,0,1,sz,PK_NONE,0,cfg,t); p->foreign=1; }
 }
 
 /* cross-check of the hand declaration against the library's extension parser (classification only) */
